@@ -2,6 +2,7 @@ package python
 
 import (
 	"fmt"
+	"sort"
 	"strings"
 
 	"github.com/grafana/cog/internal/ast"
@@ -36,6 +37,18 @@ func formatValue(val any) string {
 		}
 
 		return fmt.Sprintf("[%s]", strings.Join(items, ", "))
+	}
+
+	if dict, ok := val.(map[string]any); ok {
+		keys := tools.Keys(dict)
+		sort.Strings(keys) // to ensure a deterministic output
+
+		items := make([]string, 0, len(dict))
+		for _, key := range keys {
+			items = append(items, fmt.Sprintf("%#v: %s", key, formatValue(dict[key])))
+		}
+
+		return fmt.Sprintf("{%s}", strings.Join(items, ", "))
 	}
 
 	return fmt.Sprintf("%#v", val)
